@@ -3,6 +3,7 @@ from __future__ import annotations
 
 import glob
 import os
+import re
 import random
 import shutil
 import tempfile
@@ -30,7 +31,7 @@ REQUIRED = {"testcases.scenario_whose_sub_step_did_not_pass_is_not_reported_pass
             "counters.match_entries": {"quick": 600, "thorough": 30000}, "problem.entry_names_step_or_hook": {"quick": 300, "thorough": 15000},
             "reporter.never_raises": {"quick": 600, "thorough": 30000},
             "testcases.scenario_whose_cleanup_raised_is_not_reported_passed": {"quick": 30, "thorough": 1500}}
-REQUIRED_SEEN = {"hook_fault_kind": ["keyboard_interrupt"], "nested_sub_step": ["undefined", "fail", "error"], "feature_file_name_class": ["dotted"], "row_name_schema": ["{name}"], "captured_output_size": ["beyond_64KiB"], "testcase_status": ["passed", "failed", "error", "hook_error", "skipped", "untested"],
+REQUIRED_SEEN = {"hook_fault_kind": ["keyboard_interrupt"], "background_shape": ["feature_and_rule_backgrounds"], "nested_sub_step": ["undefined", "fail", "error"], "feature_file_name_class": ["dotted"], "row_name_schema": ["{name}"], "captured_output_size": ["beyond_64KiB"], "testcase_status": ["passed", "failed", "error", "hook_error", "skipped", "untested"],
                  "hostile_class_in_report": ["xml_meta", "cdata_end", "c0", "c1", "ansi", "astral", "non_ascii", "format_meta"]}
 NSHARDS = {"quick": 16, "thorough": 16}
 
@@ -286,6 +287,20 @@ def run_case(lab, mon, case, rng, messages, noisy, sample=False):
                 if len(reported) == 1:
                     mon.check("testcases.executed_scenario_reported_as_executed", reported[0] not in ("untested", "skipped"),
                               lambda: W(feature=f.name, scenario=sn, status_when_it_ran=st_run, reported=reported[0]))
+                    if st_run == "passed" and not case.get("hook_fault") and (fn, sn) not in cleanup_victim and not case.get("cleanup_plan"):
+                        # nothing can go wrong for a scenario after its after_scenario hook saw it passed (no hook fault, no raising
+                        # cleanup in this run): what a LATER scenario does must not change its test case
+                        mon.check("testcases.scenario_that_passed_is_reported_passed", reported[0] == "passed",
+                                  lambda: W(feature=f.name, scenario=sn, status_when_it_ran=st_run, reported=reported[0]))
+                        # ... nor the step results shown in it (the "@scenario.begin ... @scenario.end" block of system-out)
+                        hit_ = [c for c in cases if norm((c["attrs"].get("name"), None)) == norm((sn, None))]
+                        if len(hit_) == 1:
+                            so_ = "".join(x.get("text") or "" for x in hit_[0]["children"] if x["tag"] == "system-out")
+                            if "@scenario.begin" in so_ and "@scenario.end" in so_:
+                                block_ = so_.split("@scenario.begin", 1)[1].split("@scenario.end", 1)[0]
+                                shown_ = re.findall(r"\.\.\. (passed|failed|error|skipped|untested|undefined|pending|hook_error)\b", block_)
+                                mon.check("testcases.steps_of_a_scenario_that_passed_are_shown_passed", all(x == "passed" for x in shown_),
+                                          lambda: W(feature=f.name, scenario=sn, step_results_shown=shown_, block=block_[-400:]))
             for (fn, sn) in nested_victim:
                 if fn != f.name:
                     continue
@@ -397,6 +412,11 @@ def run(spec, mon):
         if i % 4 == 3:
             # outlines with several Examples sections, some of them header-only (no data rows)
             gen.update({"p_outline": 0.6, "max_examples": 3, "p_empty_examples": 0.4})
+        if i % 4 == 0:
+            # a feature Background AND rule Backgrounds (the rule's scenarios inherit the outer steps), densely tagged so that a tag
+            # selection takes some scenarios of a rule and leaves others: every scenario has step results of its own
+            gen.update({"p_background": 0.9, "p_rule_background": 0.9, "max_rules": 2, "max_items": 3, "p_tag": 0.6})
+            mon.seen("background_shape", "feature_and_rule_backgrounds")
         case = RB.gen_case(rng, gen=gen, p_stop=0.15, p_dry=0.05, p_noskipped=0.5, p_names=0.1)
         case = hostile_program(case, rng, p=0.5 if i % 3 else 0.0)
         ud = []
